@@ -22,6 +22,11 @@ theorem mapM_len {α β} (f : α → M β) : ∀ (l : List α) (r : List β), l.
     rw [pure_eq] at h
     rw [← ok_inj h, List.length_cons, List.length_cons, ih bs hbs]
 
+theorem mapM_ok_len {α β} (f : α → M β) (P : α → Prop) (R : β → Prop) (hf : ∀ a, P a → ∃ b, f a = .ok b ∧ R b)
+    (l : List α) (h : ∀ a ∈ l, P a) : ∃ l', l.mapM f = .ok l' ∧ l'.length = l.length ∧ ∀ b ∈ l', R b := by
+  obtain ⟨l', h1, h2⟩ := mapM_ok f P R hf l h
+  exact ⟨l', h1, mapM_len f l l' h1, h2⟩
+
 theorem mapM_all {α β} (f : α → M β) (P : β → Prop) : ∀ (l : List α) (r : List β), l.mapM f = .ok r →
     (∀ a ∈ l, ∀ b, f a = .ok b → P b) → ∀ b ∈ r, P b := by
   intro l
